@@ -24,6 +24,19 @@ func H_C17_sem(n int) {
 	pre := Ver{Major: vU64("pre.maj"), Minor: vU64("pre.min"), Patch: vU64("pre.pat"), PreRelease: vStr("pre.pre", 2), Build: vStr("pre.build", 1)}
 	v := pre
 	err := v.UnmarshalText(in)
+	// UnmarshalText is the parser under rule 0: same verdict, the parsed value is what gets stored (whatever the
+	// receiver held before), and a refusal wraps the parser's error (errors.Is / errors.As keep working)
+	pv, perr := DefaultParser(in, 0)
+	vAssert("unmarshal-agrees-with-parser", (err == nil) == (perr == nil))
+	if err == nil {
+		vAssert("successful-unmarshal-stores-the-parsed-value", v == pv)
+	} else {
+		w, wraps := err.(interface{ Unwrap() error })
+		vAssert("unmarshal-error-wraps-the-parser-error", wraps && w.Unwrap() != nil)
+		for _, sentinel := range []error{ErrInputTooLong, ErrInvalidPreRelease, ErrInvalidBuild, ErrInvalidMajor, ErrInvalidMinor, ErrInvalidPatch} {
+			vAssert("same-sentinels-as-the-parser", errorsIs(err, sentinel) == errorsIs(perr, sentinel))
+		}
+	}
 	vReach("ok", err == nil)
 	vReach("failed", err != nil)
 	if err != nil {
